@@ -112,6 +112,8 @@ def prepare_copy(dst, harness_files, annotations=(), use_map_shim=False, extra_m
         txt = open(hf).read()
         for m in re.finditer(r"#\[cfg_attr\(kani,\s*kani::proof(?:_for_contract\([^)]*\))?\)\][^{;]*?pub fn (\w+)\s*\(\)", txt, re.S):
             fns.append((modname, m.group(1)))
+        for m in re.finditer(r"// @native-harness[^\n]*\n(?:\s*#\[[^\n]*\]\n)*\s*pub fn (\w+)\s*\(\)", txt):
+            fns.append((modname, m.group(1)))
     ex = os.path.join(dst, "examples", "verif_replay.rs")
     os.makedirs(os.path.dirname(ex), exist_ok=True)
     with open(ex, "w") as fh:
@@ -428,3 +430,32 @@ def native_replay(harness_files, harness, vals, watchdog_s=20, annotations=(), i
         return True, out
     finally:
         shutil.rmtree(d, ignore_errors=True)
+
+
+def native_bounded(harness_files, names, inject=(), watchdog_s=300):
+    """Bounded stand-in (NOT a proof): build the scratch copy natively (--cfg verif_replay, real std) and run exhaustive
+    enumeration harnesses.  Returns {name: (ok: bool|None, output)}."""
+    d = scratch_root()
+    out = {}
+    try:
+        dst = os.path.join(d, "repo")
+        prepare_copy(dst, harness_files, (), False, inject=inject)
+        with Lock("replay-target"):
+            env = dict(ENV, RUSTFLAGS="--cfg verif_replay -Awarnings", CARGO_TARGET_DIR=REPLAY_TARGET)
+            b = subprocess.run(["cargo", "build", "--offline", "--example", "verif_replay"], cwd=dst, env=env,
+                               capture_output=True, text=True, timeout=1800)
+            if b.returncode != 0:
+                return {n: (None, "native build failed:\n" + b.stderr[-2500:]) for n in names}
+            exe = os.path.join(d, "verif_replay")
+            shutil.copy(os.path.join(REPLAY_TARGET, "debug", "examples", "verif_replay"), exe)
+        for n in names:
+            try:
+                r = subprocess.run([exe, n], capture_output=True, text=True, timeout=watchdog_s)
+            except subprocess.TimeoutExpired:
+                out[n] = (None, f"native harness exceeded {watchdog_s}s")
+                continue
+            ok = r.returncode == 0 and "VERIF-REPLAY-PASSED" in r.stdout
+            out[n] = (ok if r.returncode not in (3, 4, 5) else None, (r.stdout + r.stderr)[-3000:])
+    finally:
+        shutil.rmtree(d, ignore_errors=True)
+    return out
